@@ -104,6 +104,7 @@ def run(prog, chk):
     chk.decided += ["the outline compilers generate a glyph only for a name the glyph set lacks (R02.13, shared with C01); the .notdef they add is drawn in the output flavour's contour direction (R02.14)"]
     chk.decided += ["in the static TrueType pipeline mixed glyphs are decomposed, unconditionally, before curves are converted (R02.15)"]
     chk.decided += ["the caller's outline options reach the outline compiler as given (reviewed override table; shared with C01) (R02.17)"]
+    chk.decided += ["SortContoursFilter only reorders: what it puts back into the glyph is sorted(<every contour of the glyph>), a permutation - contours with equal sort keys are all kept (R02.19)"]
     chk.decided += ["ReverseContourDirectionFilter reverses every contour of every glyph that has contours, whatever the glyph looks like: the only glyphs passed over are those without contours (R02.18)"]
     chk.decided += ["the TrueType glyph is the one the glyf pen built: no package code assigns, deletes or edits in place the outline fields of a compiled glyph (coordinates, endPtsOfContours, "
                     "numberOfContours; point flags except the reviewed overlap bit; component flags except the reviewed bits) (R02.16)"]
@@ -126,6 +127,7 @@ def run(prog, chk):
     chk.guard(r0215, prog, chk)
     chk.guard(r0216, prog, chk)
     chk.guard(r0218, prog, chk)
+    chk.guard(r0219, prog, chk)
     from .c01 import check_outline_option_overrides
     chk.guard(check_outline_option_overrides, prog, chk, "R02.17")
 
@@ -834,7 +836,47 @@ def r0218(prog, chk):
     chk.minimum("R02.18", 2)
 
 
+# ----------------------------------------------------------------------------- R02.19
+def r0219(prog, chk):
+    ix = prog.ix
+    f = ix.get_method("ufo2ft.filters.sortContours.SortContoursFilter", "filter", own=True)
+    g = f.params()[1]
+
+    def all_contours(e):
+        """an expression that enumerates every contour of the glyph once"""
+        if T(e) in (g, f"{g}.contours", f"list({g})", f"tuple({g})", f"list({g}.contours)"):
+            return True
+        if isinstance(e, (ast.GeneratorExp, ast.ListComp)) and len(e.generators) == 1 and not e.generators[0].ifs and isinstance(e.generators[0].target, ast.Name) \
+                and T(e.elt) == e.generators[0].target.id and T(e.generators[0].iter) in (g, f"{g}.contours"):
+            return True
+        return False
+
+    def is_permutation(x, ff):
+        return isinstance(x, ast.Call) and isinstance(x.func, ast.Name) and x.func.id == "sorted" and x.args and all_contours(x.args[0])
+    puts = []  # expressions whose elements go back into the glyph
+    for c in A.body_nodes(f.node):
+        if isinstance(c, ast.Call) and isinstance(c.func, ast.Attribute) and c.func.attr == "extend" and T(c.func.value) == f"{g}.contours" and c.args:
+            puts.append((c, c.args[0]))
+        if isinstance(c, ast.Call) and isinstance(c.func, ast.Attribute) and c.func.attr == "appendContour" and T(c.func.value) == g and c.args:
+            loops = [a for a in ix.ancestors(c) if isinstance(a, ast.For)]
+            if loops and T(c.args[0]) in A.target_names(loops[0].target):
+                puts.append((c, loops[0].iter))
+    need(puts, f"cannot interpret {f.short}: contours put back into the glyph")
+    for c, src in puts:
+        ok, bad = every_origin(prog, f, src, is_permutation, allow_const=False)
+        chk.ob("R02.19", f"{f.short}|{A.keytext(f.node, c)}|the contours put back are sorted(<every contour of the glyph>)", ok, where(f, c), detail=T(src, 60),
+               message=f"{f.short}: the contours written back into the glyph are not a sorted copy of all its contours (they come from {bad}): contours can be dropped or duplicated "
+                       f"(e.g. two contours with the same bounding box collapsing into one dictionary entry)")
+    clears = calls_named(f, "clearContours")
+    chk.ob("R02.19", f"{f.short}|contours are cleared once before they are put back", len(clears) == 1, where(f), detail="glyph.clearContours()", nontrivial=False,
+           message=f"{f.short}: the glyph's contours are not cleared exactly once before the sorted ones are added")
+    chk.minimum("R02.19", 2)
+
+
 MUTANTS = [
+    M("contours keyed by their bounding box before sorting: equal boxes collapse (seeded C02k)", "ufo2ft/filters/sortContours.py", "SortContoursFilter.filter",
+      "contours = sorted((c for c in glyph), key=lambda contour: _control_bounding_box(contour))",
+      "boxes = {_control_bounding_box(contour): contour for contour in glyph}\ncontours = [boxes[box] for box in sorted(boxes)]", rule="R02.19"),
     M("clockwise glyphs are left as they are by the reversing filter (seeded C02j)", "ufo2ft/filters/reverseContourDirection.py", "ReverseContourDirectionFilter.filter",
       "pen = ReverseContourPointPen(glyph.getPointPen())", "if sum(len(c) for c in glyph) % 2:\n    return False\npen = ReverseContourPointPen(glyph.getPointPen())", rule="R02.18"),
     M("only closed contours are reversed", "ufo2ft/filters/reverseContourDirection.py", "ReverseContourDirectionFilter.filter",
